@@ -78,6 +78,9 @@ func decodeCborLinkListFromAny(maybeList any) (List__Link, error) {
 			if !ok {
 				return nil, fmt.Errorf("expected cbor tag content to be []byte, got %T", rawTag.Content)
 			}
+			if len(rawBytes) == 0 {
+				return nil, fmt.Errorf("expected cbor tag content to be non-empty")
+			}
 			// the tag content is the _cid.Cid, after the first byte
 			_, _cid, err := cid.CidFromBytes(rawBytes[1:])
 			if err != nil {
@@ -340,7 +343,11 @@ func (x *Block) UnmarshalCBOR(data []byte) error {
 	}
 	// fifth is the meta SlotMeta
 	if meta, ok := arr.Get(4); ok {
-		metaArr := _array(meta.([]interface{}))
+		metaList, ok := meta.([]interface{})
+		if !ok {
+			return fmt.Errorf("expected meta to be []interface{}, got %T", meta)
+		}
+		metaArr := _array(metaList)
 		var m SlotMeta
 		if parentSlot, ok := metaArr.Get(0); ok {
 			parentSlot, err := getUint64FromInterface(parentSlot)
@@ -388,6 +395,9 @@ func (x *Block) UnmarshalCBOR(data []byte) error {
 		rawBytes, ok := rawTag.Content.([]byte)
 		if !ok {
 			return fmt.Errorf("expected cbor tag content to be []byte, got %T", rawTag.Content)
+		}
+		if len(rawBytes) == 0 {
+			return fmt.Errorf("expected cbor tag content to be non-empty")
 		}
 		_, _cid, err := cid.CidFromBytes(rawBytes[1:])
 		if err != nil {
@@ -475,7 +485,11 @@ func (x *Rewards) UnmarshalCBOR(data []byte) error {
 	}
 	// third is the data DataFrame
 	if data, ok := arr.Get(2); ok {
-		dataArr := _array(data.([]interface{}))
+		dataList, ok := data.([]interface{})
+		if !ok {
+			return fmt.Errorf("expected data to be []interface{}, got %T", data)
+		}
+		dataArr := _array(dataList)
 		var d DataFrame
 		if err := d.fromCBORArray(dataArr); err != nil {
 			return fmt.Errorf("failed to decode metadata: %w", err)
@@ -537,7 +551,10 @@ func (x *Entry) UnmarshalCBOR(data []byte) error {
 	}
 	// third is the hash Hash
 	if hash, ok := arr.Get(2); ok {
-		h := hash.([]byte)
+		h, ok := hash.([]byte)
+		if !ok {
+			return fmt.Errorf("expected hash to be []byte, got %T", hash)
+		}
 		x.Hash = h
 	} else {
 		return fmt.Errorf("expected hash to be present")
@@ -602,7 +619,11 @@ func (x *Transaction) UnmarshalCBOR(data []byte) error {
 	}
 	// second is the data DataFrame
 	if data, ok := arr.Get(1); ok {
-		dataArr := _array(data.([]interface{}))
+		dataList, ok := data.([]interface{})
+		if !ok {
+			return fmt.Errorf("expected data to be []interface{}, got %T", data)
+		}
+		dataArr := _array(dataList)
 		var d DataFrame
 		if err := d.fromCBORArray(dataArr); err != nil {
 			return fmt.Errorf("failed to decode metadata: %w", err)
@@ -613,7 +634,11 @@ func (x *Transaction) UnmarshalCBOR(data []byte) error {
 	}
 	// third is the metadata DataFrame
 	if metadata, ok := arr.Get(2); ok {
-		metaArr := _array(metadata.([]interface{}))
+		metaList, ok := metadata.([]interface{})
+		if !ok {
+			return fmt.Errorf("expected metadata to be []interface{}, got %T", metadata)
+		}
+		metaArr := _array(metaList)
 		var m DataFrame
 		if err := m.fromCBORArray(metaArr); err != nil {
 			return fmt.Errorf("failed to decode metadata: %w", err)
